@@ -2560,7 +2560,14 @@ pub fn apply_to_fn(
     }
     // a function whose body ends in a statement (unit result): the anchor is the last thing in the body
     if cfg.anchors.iter().any(|(k, _, _)| k == "at_end") {
-        match f.block.stmts.last() {
+        let unit_ret = matches!(f.sig.output, syn::ReturnType::Default);
+        match f.block.stmts.last_mut() {
+            Some(syn::Stmt::Expr(_, semi @ None)) if unit_ret => {
+                // a unit function whose body ends in an expression of type (): the expression becomes a statement
+                *semi = Some(Default::default());
+                f.block.stmts.push(anchor_stmt("at_end", "z", 0));
+                info.anchors.push("at_end_z_0".into());
+            }
             Some(syn::Stmt::Expr(_, None)) => return Err("lost anchor: function has a tail expression (use before_tail)".into()),
             _ => {
                 f.block.stmts.push(anchor_stmt("at_end", "z", 0));
